@@ -5,6 +5,7 @@
 mod ctx;
 mod rng;
 mod c09;
+mod c19;
 #[allow(dead_code)]
 mod jsonproto;
 
@@ -56,6 +57,7 @@ fn main() {
     let mut ctx = Ctx::new(seed, tier, only, n);
     let rule = match prop.as_str() {
         "C09" => c09::run(&mut ctx),
+        "C19" => c19::run(&mut ctx),
         _ => {
             eprintln!("unknown property {}", prop);
             std::process::exit(2);
